@@ -668,6 +668,14 @@ class Function:
                 out.append(fact)
         return out
 
+    def reachable_from_succs(self, bid):
+        """blocks reachable from the successors of bid (bid itself only when it lies on a cycle)"""
+        out = set()
+        for s_ in self.blocks[bid].succs:
+            if s_ is not None:
+                out |= self.reachable(s_)
+        return out
+
     def precedes(self, a, b):
         """True if CFG element of node a is evaluated on every path before node b (block dominance + order)"""
         la, lb = self.block_of(a), self.block_of(b)
